@@ -76,15 +76,17 @@ Definition map_prob (C : list (list Q)) (ids : jkey) : Q := (Qabs (coeff_prod C 
    comparison.  With lo = hi = cutoff this is the exact rule of C04's c04_infinite.) *)
 Definition support_ok (C : list (list Q)) (lo hi : Q) (keys : list jkey) : bool :=
   let dims := map (@length Q) C in
+  let kap := Qred (kappa_all C) in               (* computed once; == kappa_all C *)
   forallb (in_dims dims) keys && nodup_keys keys &&
   forallb (fun ids =>
-             let p := map_prob C ids in
+             let p := (Qabs (coeff_prod C ids) / kap)%Q in          (* == map_prob C ids *)
              if mem_key ids keys then Qle_bool lo p else negb (Qle_bool hi p))
           (all_maps dims).
 
 (* every listed coefficient is the product of the chosen maps' coefficients, within tol * kappa *)
 Definition coeffs_ok (C : list (list Q)) (tol : Q) (samples : list (jkey * Q)) : bool :=
-  forallb (fun s => Qle_bool (Qabs (snd s - coeff_prod C (fst s))) (tol * kappa_all C)) samples.
+  let bound := Qred (tol * kappa_all C) in
+  forallb (fun s => Qle_bool (Qabs (snd s - coeff_prod C (fst s))) bound) samples.
 
 Definition count_occ_nat (k : nat) (l : list nat) : nat := length (filter (Nat.eqb k) l).
 
